@@ -182,6 +182,10 @@ func c05ContextCarries(ac map[string]interface{}, p *c05Params, tag string) {
 	vrt.Assert(!hasUntag && !hasDash && !hasEmpty && !hasHidden, "c05/context-has-no-untagged-or-hidden-fields/"+tag)
 	name, okName := ac["actionName"].(string)
 	vrt.Assert(okName && name == "actionA", "c05/context-names-the-action/"+tag)
+	// the registered application data is the tagged parameters (a, s, b, n, p) plus the six
+	// framework entries - nothing the caller's own context held before
+	_, hasPre := ac["pre"]
+	vrt.Assert(!hasPre && len(ac) == 11, "c05/context-holds-exactly-the-tagged-parameters/"+tag)
 }
 
 // VerifC05Tcc: prepare (inside or outside a global transaction, registration
